@@ -86,6 +86,8 @@ def register(M):
             st.ghost['want_cards'] = True
             st.assume(set_card(S, st) == Z(M.nonneg_diff(v[2], v[1])))
             ex.use('L-CARD:card of an integer interval [Lean: Lemmas.card_interval]')
+            S.from_range = True
+            S.range_bounds = (v[1], v[2])
             return st.alloc(S)
         if tag(v) in LAZY:
             v = st.deref(materialise(M, v, st))
@@ -115,6 +117,21 @@ def register(M):
         if tag(v) in LAZY:
             return materialise(M, v, st)
         if isinstance(v, SSet):
+            if getattr(v, 'from_range', False):
+                # A-SETORDER (CPython): a set built as set(range(n)) (minus / intersected with something) holds small non-negative
+                # ints whose hash is their value and whose table is larger than every element: it iterates in increasing order.
+                # Conformance-checked by vk/conformance.py; pdag_to_dag relies on it (all_but_i must stay aligned with `indexes`).
+                ex.use('A-SETORDER:list(set(range(n)) - {...}) enumerates in increasing order (CPython small-int hashing; conformance-tested)')
+                rb, rm = getattr(v, 'range_bounds', None), getattr(v, 'range_removed', None)
+                if rb is not None and rm is not None and not is_z3(rb[0]) and rb[0] == 0:
+                    # closed form of the increasing enumeration of range(0, n) minus one element x: k -> k (k < x), k + 1 (k >= x)
+                    # (the fact itself needs induction on k, which the solver does not do: it is part of the model rule)
+                    n, x = Z(M.nonneg_diff(rb[1], 0)), Z(num(rm))
+                    inside = AND(0 <= x, x < n)
+                    L = SList(z3.If(Z(inside), n - 1, n) if is_z3(inside) else (n - 1 if inside else n),
+                              lambda k, x=x, inside=inside: z3.If(AND(Z(inside), Z(k) >= x), Z(k) + 1, Z(k)), INT)
+                    return st.alloc(L)
+                return M.list_of_set(v, st, sort=True)
             return M.list_of_set(v, st)
         if isinstance(v, SList):
             return st.alloc(SList(v.n, v.get, v.elem))
@@ -741,6 +758,26 @@ def register(M):
         ex.write_ref(base, SList(Z(L.n) - 1, L.get, L.elem), st, node)
         return val
     ME[('SList', 'pop')] = m_pop
+
+    def m_remove(base, L, args, kw, st, node):
+        """list.remove(x): the first occurrence disappears, later elements move down by one (ValueError when absent: obligation)"""
+        x = args[0]
+        ex.oblige(st, 'remove-present', list_contains(L, x), node, text='list.remove(x): x occurs in the list')
+        pos = z3.Int(fresh_name('rmpos'))
+        k = bvar('k')
+        st.assume(AND(in_range(pos, 0, L.n), EQ(L.get(pos), x), forall([k], IMPLIES(AND(0 <= k, k < pos), NOT(EQ(L.get(k), x))))))
+        from .npmodel2 import _val_ite
+        nv = SList(Z(L.n) - 1, lambda j: _val_ite(Z(j) < pos, L.get(j), L.get(Z(j) + 1)), L.elem)
+        # every other element survives, at index k (k < pos) or k - 1 (k > pos): an instance of the definition above, stated with a
+        # named index function so that the solver has the witness term for membership in the new list
+        newidx = z3.Function(fresh_name('rmidx'), z3.IntSort(), z3.IntSort())
+        st.assume(forall([k], newidx(k) == z3.If(k < pos, k, k - 1)))
+        if not isinstance(L.elem, (TTuple, TList, TArr)) and L.elem is not None:
+            st.assume(forall([k], IMPLIES(AND(in_range(k, 0, L.n), NOT(k == pos)),
+                                          AND(in_range(newidx(k), 0, Z(L.n) - 1), EQ(nv.get(newidx(k)), L.get(k))))))
+        ex.write_ref(base, nv, st, node)
+        return None
+    ME[('SList', 'remove')] = m_remove
 
     # sets
     def m_add(base, S, args, kw, st, node):
